@@ -139,4 +139,9 @@ def gridIdxSafe : List Nat → Nat → List Nat → Bool
 def sliceIdxSafe (ranges : List Nat) (dim ncol : Nat) : Bool :=
   decide (colsOf ranges dim < 2147483648) && decide (ncol < 4294967296)
 
+/-- `Π_d max(1, naxes_d, npts_d)`: a closed-form bound for every section `grideval` flattens -/
+def sizeBound : List Nat → List Nat → Nat
+  | a :: ns, l :: ls => max 1 (max a l) * sizeBound ns ls
+  | _, _ => 1
+
 end PsV
